@@ -12,6 +12,9 @@ Ops     : ("align", member letter, noise level): the target is member(source) + 
           the members are a parameter grid of every homogeneous family (translations, uniform scales, rotations
           of all quadrants about the origin, reflections, similarities with/without rotation and with reflection,
           affinities with shear / anisotropic scale / negative determinant) and unrelated ("arbitrary") targets.
+          ("alignf", member, noise, source form, target form): the same for a reduced member alphabet with source
+          and/or target presented as float32 / int64 / int32 / int16 / uint8 / list / tuple / read-only /
+          non-contiguous / Fortran-ordered data, or the options as numpy bools (level 0 only).
 Oracle  : reference models in plain numpy, written without SVD where menpo uses one
           (rotation: closed-form angle in 2-D, Horn's quaternion eigenvector in 3-D; affine: lstsq;
           translation: centroid difference; scale: ratio of centred Frobenius norms; PWA: point-in-triangle by
@@ -728,6 +731,8 @@ class C07(Check):
             s, t = self._form_pair(st["S"].copy(), member, noise, fs, ft)
             self._k = F32_K if "f32" in (fs, ft) else 1.0
             self.note("form:%s>%s" % (fs, ft))
+            if ft in INT_FORMS and fs not in INT_FORMS and noise == 0.0 and member[0] != "arb":
+                self.note("form:integer-target-is-exact-image-of-noninteger-source")
         else:
             _, member, noise = op
             fs = ft = "f64"
@@ -1252,6 +1257,8 @@ class C07(Check):
             "gpa:not-copies",
         ]
         need += ["centroid+size:%s" % c for c in ("Sim", "SimM", "SimNR", "SimNRM", "GPA")]
+        need += ["form:%s>%s" % p for p in FORM_PAIRS]
+        need.append("form:integer-target-is-exact-image-of-noninteger-source")
         if self.tier == "thorough":
             need.append("chain:expanded")
         return ["outcome %s never produced" % n for n in need if not notes.get(n)]
@@ -1273,6 +1280,10 @@ class C07(Check):
             "noise_levels": list(NOISE[self.tier]),
             "noise_levels_deeper": list(NOISE_CHAIN),
             "gpa_triples": len(gpa_triples(2)),
+            "argument_form_pairs(source,target)": ["%s>%s" % p for p in FORM_PAIRS],
+            "argument_form_members": list(FORM_FAMILIES),
+            "argument_form_noise": list(NOISE_FORM),
+            "argument_form_exclusions": {"%s:%s>%s" % k: v for k, v in self.FORM_EXCLUDED.items()},
             "rotation_grid_2d": 1440,
             "rotation_grid_3d": 2000,
             "param_grid_deltas": [1e-3, 1e-1],
@@ -1286,6 +1297,7 @@ class C07(Check):
             "centroid clause applied to similarity alignments only; uniform scale: size clause (DESIGN.md [interp])",
             "deeper levels are expanded only behind an affine-family member with noise level 0 or 0.1 and while the chained source passes the guard (distance >= %g, area >= %g, singular value >= %g)" % (GUARD_DIST, GUARD_AREA, GUARD_SV),
             "GPA: the clauses of the similarity alignment are applied to every returned transform against the target it reports; convergence itself is recorded, not demanded",
+            "argument forms (level 0, members %s, noise %s): float32 / int64 / int32 / int16 / uint8 payload (integer forms: the generic points x %g rounded; an integer target with a non-integer source is the exact image, source = member^-1(target)), python lists / tuples, read-only, non-contiguous and Fortran-ordered arrays (copy=False), options as numpy bools; the reference works in float64 on exactly the values passed; float32 letters use tolerances of 1e-3..1e-4; combinations the unchanged tree mishandles (listed under argument_form_exclusions) are not letters" % (", ".join(FORM_FAMILIES), NOISE_FORM, INT_SCALE),
             "noise = level x one fixed direction per (n, d) drawn from the seed; 'arbitrary' targets are unrelated generic point sets",
         ]
 
